@@ -116,6 +116,14 @@ type Enc struct {
 	constErrs    []string
 	assumedGlobals []string
 	nquant         int
+	localAllocs    []*localAlloc
+}
+
+type localAlloc struct {
+	v       ssa.Value
+	block   *ssa.BasicBlock
+	heaps   map[string]bool
+	isSlice bool
 }
 
 func (e *Enc) touch(h Heap) {
@@ -456,6 +464,23 @@ func (e *Enc) storePlace(p *Place, st *State, v string) {
 func (e *Enc) alloc(st *State, hint string) string {
 	r := e.define(e.freshName("new$"+hint), "Int", "(+ "+st.get(allocHeap)+" 1)")
 	st.set(allocHeap, r)
+	// ghost fields (ghost var m map[ref]T default d) of a fresh object hold their default
+	for _, name := range e.ctx.ghostDefaults {
+		gv := e.ctx.contracts.GVars[name]
+		h := Heap{Name: "G$" + name, Kind: HGhost}
+		if e.relevant != nil {
+			rh, ok := e.relevant[h.Name]
+			if !ok {
+				continue
+			}
+			h = rh
+		} else {
+			continue
+		}
+		c := &EvalCtx{enc: e, pkg: e.ctx.pkgByPath(gv.Pkg), pkgPath: gv.Pkg, st: st, vars: map[string]TV{}, where: "default of ghost var " + name}
+		d := c.eval(gv.Default)
+		e.fact("(= (select " + st.get(h) + " " + r + ") " + d.Term + ")")
+	}
 	return r
 }
 
@@ -527,6 +552,7 @@ func (e *Enc) run() (err error) {
 	e.entry = &State{m: map[string]string{}, b: map[string]string{}, enc: e}
 	e.touch(allocHeap)
 	e.findLoops()
+	e.findLocalAllocs()
 
 	// parameters and free variables
 	e.curBlock = nil
@@ -741,6 +767,12 @@ func (e *Enc) mergeStates(b *ssa.BasicBlock, edges []edge) *State {
 	}
 	// write bounds: equal on all paths, or the merged allocation counter
 	st.b = map[string]string{}
+	st.bdef = edges[0].st.bdef
+	for _, ed := range edges[1:] {
+		if ed.st.bdef != st.bdef {
+			st.bdef = st.get(allocHeap)
+		}
+	}
 	bn := map[string]bool{}
 	for _, ed := range edges {
 		for k := range ed.st.b {
@@ -864,6 +896,9 @@ func (e *Enc) encodeBlock(b *ssa.BasicBlock) {
 					qv, qv, preAlloc, nv, qv, prev, qv, nv, qv))
 			}
 		}
+		if mods.opaque {
+			st.resetBounds()
+		}
 		if li.rangeV != nil {
 			h := e.doneHeap(li.rangeV)
 			st.set(h, e.declare(e.freshName(fmt.Sprintf("loop%d$done", li.ordinal)), h.Sort))
@@ -893,6 +928,10 @@ func (e *Enc) encodeBlock(b *ssa.BasicBlock) {
 		}
 		// assume invariants
 		e.assumeInvariants(li, st, func(p *ssa.Phi) string { return e.vals[p] })
+		if len(e.invariantsOf(li)) > 0 {
+			o := e.oblig("vacuity", fmt.Sprintf("reachable@loop%d", li.ordinal), "false", fmt.Sprintf("the head of loop %d is reachable with its invariants assumed", li.ordinal), nil)
+			o.Expect = "sat"
+		}
 	} else {
 		for _, p := range phis {
 			if len(edges) == 0 {
@@ -1024,6 +1063,20 @@ func (e *Enc) loopResolver(li *loopInfo, st *State, phiVal func(*ssa.Phi) string
 // block `at` (searching dominating DebugRefs, parameters and named allocations).
 func (e *Enc) resolveLocal(name string, at *ssa.BasicBlock, st *State) (TV, bool) {
 	s := e.sorts()
+	if strings.HasPrefix(name, "&") {
+		// address of an address-taken local: the Alloc that holds it
+		want := name[1:]
+		for b := at; b != nil; b = b.Idom() {
+			for i := len(b.Instrs) - 1; i >= 0; i-- {
+				if al, ok := b.Instrs[i].(*ssa.Alloc); ok && al.Comment == want {
+					if t, ok := e.vals[al]; ok {
+						return TV{Term: t, Sort: "Int", T: al.Type()}, true
+					}
+				}
+			}
+		}
+		return TV{}, false
+	}
 	if p, ok := e.params[name]; ok {
 		return p, true
 	}
@@ -1702,9 +1755,15 @@ func (e *Enc) encodeReturn(in *ssa.Return, st *State) {
 	if e.fc == nil {
 		return
 	}
+	if len(e.fc.Ensures) > 0 {
+		// reachability twin: the assumptions collected on the way to this return must be satisfiable
+		o := e.oblig("vacuity", fmt.Sprintf("reachable@return#%d", e.retOrd), "false", "the return at "+posOf(e.fn, in.Pos())+" is reachable under the assumptions made on the way (otherwise everything proved there is vacuous)", nil)
+		o.Expect = "sat"
+	}
 	res := e.resultVars(in)
 	for i, cl := range e.fc.Ensures {
-		c := e.evalCtx(st, e.entry, mergeVars(res, e.params), func(name string) (TV, bool) { return TV{}, false }, fmt.Sprintf("%s ensures#%d", e.key, i+1))
+		retBlock := in.Block()
+		c := e.evalCtx(st, e.entry, mergeVars(res, e.params), func(name string) (TV, bool) { return e.resolveLocal(name, retBlock, st) }, fmt.Sprintf("%s ensures#%d", e.key, i+1))
 		goal := c.boolTerm(cl.E)
 		label := cl.Label
 		if label == "" {
@@ -1784,4 +1843,102 @@ func (e *Enc) resultVars(in *ssa.Return) map[string]TV {
 
 func isErrorType(t types.Type) bool {
 	return types.Identical(t, types.Universe.Lookup("error").Type())
+}
+
+
+// findLocalAllocs lists the allocations of this function whose reference never
+// escapes (it is only dereferenced, indexed, ranged over, measured or returned).
+func (e *Enc) findLocalAllocs() {
+	e.localAllocs = nil
+	for _, b := range e.fn.Blocks {
+		for _, in := range b.Instrs {
+			v, ok := in.(ssa.Value)
+			if !ok {
+				continue
+			}
+			la := &localAlloc{v: v, block: b, heaps: map[string]bool{}}
+			switch x := in.(type) {
+			case *ssa.Alloc:
+				el := x.Type().Underlying().(*types.Pointer).Elem()
+				for _, h := range e.ctx.mods.heapsOfType(el) {
+					la.heaps[h] = true
+				}
+			case *ssa.MakeMap:
+				p, vv, l := mapHeapNames(x.Type().Underlying().(*types.Map))
+				la.heaps[p], la.heaps[vv], la.heaps[l] = true, true, true
+			case *ssa.MakeSlice:
+				la.heaps[elemHeapName(x.Type().Underlying().(*types.Slice).Elem())] = true
+				la.isSlice = true
+			default:
+				continue
+			}
+			if escapes(v, map[ssa.Value]bool{}) {
+				continue
+			}
+			e.localAllocs = append(e.localAllocs, la)
+		}
+	}
+}
+
+func escapes(v ssa.Value, seen map[ssa.Value]bool) bool {
+	if seen[v] {
+		return false
+	}
+	seen[v] = true
+	refs := v.Referrers()
+	if refs == nil {
+		return true
+	}
+	for _, r := range *refs {
+		switch x := r.(type) {
+		case *ssa.DebugRef, *ssa.Return:
+		case *ssa.FieldAddr:
+			if x.X != v {
+				return true
+			}
+			if escapes(x, seen) {
+				return true
+			}
+		case *ssa.IndexAddr:
+			if x.X != v {
+				return true
+			}
+			if escapes(x, seen) {
+				return true
+			}
+		case *ssa.UnOp: // load through the pointer
+		case *ssa.Store:
+			if x.Val == v {
+				return true
+			}
+		case *ssa.MapUpdate:
+			if x.Map != v {
+				return true
+			}
+		case *ssa.Lookup:
+			if x.X != v {
+				return true
+			}
+		case *ssa.Range:
+		case *ssa.Slice:
+			if escapes(x, seen) {
+				return true
+			}
+		case *ssa.ChangeType:
+			if escapes(x, seen) {
+				return true
+			}
+		case *ssa.Call:
+			if b, ok := x.Call.Value.(*ssa.Builtin); ok {
+				switch b.Name() {
+				case "len", "cap", "delete":
+					continue
+				}
+			}
+			return true
+		default:
+			return true
+		}
+	}
+	return false
 }
